@@ -60,15 +60,25 @@ func verifHarness_C15_interceptor() {
 	// the allow-list: an arbitrary subset of the admin method set, one Boolean per method.
 	// A method that is not chosen contributes a name no method has, so the list is non-empty
 	// and all its 2^N instances are explored in one formula.
-	emptyList := verifChoose("list-shape", 2) == 1
+	// list shapes: 0 an arbitrary subset (below), 1 empty = unrestricted, 2/3 a list that is not empty
+	// but names no method (blank / padded placeholder entries): it allows nothing
+	shape := verifChoose("list-shape", 4)
+	emptyList := shape == 1
 	var list []string
 	inList := map[string]bool{}
-	if !emptyList {
+	switch shape {
+	case 0:
 		for i, m := range admin {
 			b := verifNondetBool("allow:" + m)
 			inList[m] = b
 			list = append(list, verifIteString(b, m, "~not-a-method-"+string(rune('A'+i%26))+string(rune('a'+i/26))))
 		}
+	case 2:
+		list = []string{""}
+		verifReach("allow-list-with-blank-entries")
+	case 3:
+		list = []string{" ", ""}
+		verifReach("allow-list-with-blank-entries")
 	}
 	ic := NewAccessControlInterceptor(log.NewNoopLogger(), list, nil)
 
